@@ -293,6 +293,16 @@ Theorem C16_query_eq_reference_all : forall ndesc vals links T nodes s ia labels
 Proof. exact query_eq_reference_all. Qed.
 Print Assumptions C16_query_eq_reference_all.
 
+(* ... with the fuel bound stated on the tree: path length and depth of the wired tree
+   (wheights: nesting of sequences and replications), plus the unfolding depth K *)
+Theorem C16_query_eq_reference_all_tree : forall ndesc vals links T nodes s ia labels K fuel p,
+  wire ndesc vals links T = Ok (nodes, s) -> wf_path (p_comps p) = true -> saturated (x_attrs s) K = true ->
+  (2 * (wheights nodes + K + 1) + 3 * length (p_comps p) + 2 <= fuel)%nat ->
+  process_one_subset (x_attrs s) labels fuel nodes p =
+  eval_json labels (render_nodes (x_attrs s) ia vals K nodes) (p_comps p).
+Proof. exact query_eq_reference_all_tree. Qed.
+Print Assumptions C16_query_eq_reference_all_tree.
+
 (* what one descendant step of the implementation looks at: the selected matches and the
    composite nodes with another label, in document order *)
 Theorem C16_step_descendant : forall attrs labels c nodes, (c_sep c =? SEP_DESCEND)%N = true ->
@@ -314,6 +324,7 @@ Example C16_query_eq_reference_descendant_nonvacuous :
     wf_path (p_comps p3) = true /\ wf_path (p_comps p4) = true /\ wf_path (p_comps p5) = true /\
     simple_path (p_comps p5) = false /\
     (2 * jheight (JSeqN 0 (render_nodes (x_attrs s) (fun _ => false) ex16_vals 2 nodes)) + 3 * 2 + 2 <= 18)%nat /\
+    (2 * (wheights nodes + 2 + 1) + 3 * 2 + 2 <= 18)%nat /\
     process_one_subset (x_attrs s) ex16_wlabels 18 nodes p3 = Ok [VList [VList [VIdx 1; VIdx 3]; VList [VIdx 5; VIdx 7]]] /\
     eval_json_nodes ex16_wlabels (render_nodes (x_attrs s) (fun _ => false) ex16_vals 2 nodes) (p_comps p3) =
       Ok [VList [VList [VIdx 1; VIdx 3]; VList [VIdx 5; VIdx 7]]] /\
